@@ -482,7 +482,7 @@ pub fn cmd_l2a(args: &crate::Args) -> i32 {
     let tier = args.get("tier", "quick");
     let seed = crate::seed_from(args);
     let thorough = tier == "thorough";
-    let runs = args.num("runs", if thorough { 60_000 } else { 1_500 });
+    let runs = args.num("runs", if thorough { 60_000 } else { 2_500 });
     let workers = args.num("workers", 16).max(1) as usize;
     let det = args.num("determinism", if thorough { 600 } else { 100 });
     let replay_dir = std::path::PathBuf::from(args.get("replay-dir", "/verif/replays"));
